@@ -478,6 +478,48 @@ const TOL: Duration = Duration::from_millis(200);
 /// lateness above which a scenario is re-run (its tokens need margins of 10 ms and more)
 const DISTURBED: Duration = Duration::from_millis(4);
 
+/// Stall canary: a thread that sleeps 500 us at a time and records every window in which it was
+/// itself held up by more than 2 ms (CPU quota throttling, an overloaded machine). A lateness that
+/// coincides with such a window says nothing about the timers: the scenario is re-run instead.
+static STALLS: Mutex<Vec<(Instant, Instant)>> = Mutex::new(Vec::new());
+
+fn start_canary() {
+    static STARTED: AtomicBool = AtomicBool::new(false);
+    if STARTED.swap(true, Ordering::SeqCst) {
+        return;
+    }
+    std::thread::spawn(|| {
+        try_realtime();
+        loop {
+            let a = Instant::now();
+            std::thread::sleep(Duration::from_micros(500));
+            let b = Instant::now();
+            if b - a > Duration::from_micros(2500) {
+                let mut v = STALLS.lock().unwrap();
+                v.push((a, b));
+                let n = v.len();
+                if n > 4096 {
+                    v.drain(..n - 2048);
+                }
+            }
+        }
+    });
+}
+
+/// total stalled time the canary saw inside `[from, to]`
+fn stalled_within(from: Instant, to: Instant) -> Duration {
+    let v = STALLS.lock().unwrap();
+    let mut total = Duration::ZERO;
+    for (a, b) in v.iter() {
+        let lo = (*a).max(from);
+        let hi = (*b).min(to);
+        if hi > lo {
+            total += hi - lo;
+        }
+    }
+    total
+}
+
 #[derive(Clone, Default)]
 struct RtOut {
     line: String,
@@ -513,7 +555,8 @@ impl Shared {
             let late = n - deadline;
             // a deadline already in the past at creation is "late" by construction
             if deadline > self.t0 {
-                if late > TOL {
+                // (not when the whole process was demonstrably stalled for a good part of that time)
+                if late > TOL && stalled_within(deadline, n + Duration::from_millis(3)) < late / 4 {
                     self.fail("C09:late-fire", format!("{what}: completed {late:?} after its deadline"));
                 }
                 if late > self.max_late.get() {
@@ -604,8 +647,13 @@ async fn run_task(sh: Rc<Shared>, id: usize, spec: String) {
             let mut iv = interval_at(start, period);
             let mut ks = vec![];
             let mut prev: Option<Instant> = None;
+            let mut expected_call = sh.t0;
             for j in 0..n {
                 let c0 = Instant::now();
+                // a call delayed by a scheduling stall may land in another period: have the scenario re-run
+                if j > 0 && c0.saturating_duration_since(expected_call) > sh.max_late.get() {
+                    sh.max_late.set(c0.saturating_duration_since(expected_call));
+                }
                 let mut f = std::pin::pin!(iv.tick());
                 let first = futures_util::poll!(f.as_mut());
                 let c1 = Instant::now();
@@ -640,12 +688,14 @@ async fn run_task(sh: Rc<Shared>, id: usize, spec: String) {
                     }
                 }
                 prev = Some(v);
+                expected_call = if !work.is_zero() { (v + work).max(sh.t0) } else { v.max(sh.t0) };
                 ks.push((rel.as_nanos() / period.as_nanos()).to_string());
                 if !work.is_zero() && j + 1 < n {
                     sh.sleep(id, &format!("{spec} work {j}"), v + work).await;
                 }
             }
-            format!("ticks:{}", ks.join("/"))
+            // tick indices are predictable only with a margin against real-time jitter (see the generator)
+            if period >= Duration::from_millis(20) { format!("ticks:{}", ks.join("/")) } else { format!("ticks#{}", ks.len()) }
         }
         _ => "bad-spec".to_string(),
     };
@@ -787,7 +837,8 @@ fn run_rt_once(drv: &str, lp: &str, tasks_s: &str) -> RtOut {
         sh.tokens.borrow().iter().map(|t| t.clone().unwrap_or_else(|| "unfinished".into())).collect();
     out.line = format!("{} residue={}", toks.join(" "), if residue.is_none() { "0" } else { "+" });
     out.failures = sh.failures.borrow().clone();
-    out.disturbed = sh.max_late.get() > DISTURBED;
+    std::thread::sleep(Duration::from_millis(1)); // let the canary close a stall window that is still open
+    out.disturbed = sh.max_late.get() > DISTURBED || !stalled_within(sh.t0, Instant::now()).is_zero();
     out.tags.push(format!("rt:{drv}:{lp}"));
     for t in &tasks {
         out.tags.push(format!("rt:task-{}", &t[..1]));
@@ -795,10 +846,23 @@ fn run_rt_once(drv: &str, lp: &str, tasks_s: &str) -> RtOut {
     out
 }
 
+/// Timing-sensitive threads ask for the real-time scheduling class (best effort: needs privilege;
+/// without it a loaded machine just causes more re-runs of disturbed cases).
+fn try_realtime() {
+    unsafe {
+        let p = libc::sched_param { sched_priority: 10 };
+        libc::sched_setscheduler(0, libc::SCHED_FIFO, &p);
+    }
+}
+
 fn run_rt(drv: &str, lp: &str, tasks: &str) -> RtOut {
+    start_canary();
     let mut last = RtOut::default();
     let mut all_failures = vec![];
-    for attempt in 0..5 {
+    for attempt in 0..12 {
+        if attempt > 2 {
+            std::thread::sleep(Duration::from_millis(20 * attempt));
+        }
         last = run_rt_once(drv, lp, tasks);
         all_failures.extend(last.failures.clone());
         if !last.disturbed {
@@ -806,6 +870,9 @@ fn run_rt(drv: &str, lp: &str, tasks: &str) -> RtOut {
                 last.tags.push("rt:rerun-after-stall".into());
             }
             break;
+        }
+        if attempt == 11 {
+            last.tags.push("rt:gave-up-still-disturbed".into());
         }
     }
     // a monitor failure in any attempt counts
@@ -919,7 +986,7 @@ fn exec_case(case: &Case) -> Exec {
         return ex;
     }
     // wheel-level case: re-run on a coarser grid when the clock bracket was broken
-    let grids = [200_000u64, 200_000, 1_000_000, 5_000_000, 5_000_000, 20_000_000];
+    let grids = [200_000u64, 200_000, 1_000_000, 1_000_000, 5_000_000, 5_000_000, 20_000_000, 20_000_000, 20_000_000];
     for (i, g) in grids.iter().enumerate() {
         let mut attempt = Exec::new();
         match run_wheel(&case.lines, *g, &mut attempt) {
@@ -1040,14 +1107,21 @@ fn gen_rt_line(rng: &mut Rng) -> String {
             7 => format!("t,n,{}", near(rng)),
             8 => format!("t,r,{}", near(rng)),
             9 => {
-                // plain interval
+                // short periods: only the number of ticks is predicted, the monitors judge the instants
                 format!("i,{},{},{},0", near(rng), rng.range(2, 12), rng.range(1, 5))
             }
             _ => {
-                // interval with work longer than the period: missed ticks; work sits mid-period
-                let p = 20;
-                let work = *rng.pick(&[10u64, 30, 50]);
-                format!("i,{},{p},{},{work}", near(rng), rng.range(2, 3))
+                // periods of 20 ms and more: the tick indices are predicted. Every `tick()` call is kept
+                // at least 10 ms before the next tick boundary: work is 0 or ends mid-period (so with
+                // work longer than the period ticks are missed), and a start in the past leaves the
+                // first call (at the scenario start) that far from a boundary as well
+                let p = *rng.pick(&[20u64, 26, 30]);
+                let work = *rng.pick(&[0, p / 2, p + p / 2]);
+                let mut start = near(rng);
+                while start < 0 && ((-start) as u64) % p > p - 10 {
+                    start += 1;
+                }
+                format!("i,{start},{p},{},{work}", rng.range(2, 3))
             }
         };
         tasks.push(t);
@@ -1084,11 +1158,12 @@ fn generate(tier: &str, rng: &mut Rng) -> Vec<Case> {
     }
     let results: Arc<Mutex<HashMap<String, RtOut>>> = Arc::new(Mutex::new(HashMap::new()));
     let queue: Arc<Mutex<Vec<String>>> = Arc::new(Mutex::new(rt_lines.clone()));
-    let n_threads = 6;
+    let n_threads = 4;
     let ths: Vec<_> = (0..n_threads)
         .map(|_| {
             let (queue, results) = (queue.clone(), results.clone());
             std::thread::spawn(move || {
+                try_realtime();
                 loop {
                     let Some(l) = queue.lock().unwrap().pop() else { break };
                     let o = rt_line(&l);
@@ -1113,6 +1188,7 @@ fn generate(tier: &str, rng: &mut Rng) -> Vec<Case> {
 fn main() {
     // expected panics (generation overflow, Instant overflow) are caught and reported per line
     std::panic::set_hook(Box::new(|_| {}));
+    try_realtime();
     gen_word_index();
     run_harness(
         generate,
